@@ -95,6 +95,29 @@ impl Handler<Echo> for EchoSvc {
 /// Same URI as `EchoSvc`/`Echo`, but replies with whatever bytes it was given.
 pub struct Impostor {
     pub reply: Rc<RefCell<Vec<u8>>>,
+    /// cut points: when not empty the reply body is streamed in pieces, without a declared length
+    pub cuts: Rc<RefCell<Vec<usize>>>,
+}
+
+fn chunked(bytes: &[u8], cuts: &[usize]) -> hyper::Body {
+    let mut parts: Vec<Result<Vec<u8>, std::io::Error>> = Vec::new();
+    let mut last = 0usize;
+    for c in cuts.iter().copied().chain(std::iter::once(bytes.len())) {
+        let c = c.min(bytes.len());
+        if c > last {
+            parts.push(Ok(bytes[last..c].to_vec()));
+            last = c;
+        }
+    }
+    hyper::Body::wrap_stream(futures::stream::iter(parts))
+}
+
+fn seeded_cuts(rng: &mut impl Rng, len: usize) -> Vec<usize> {
+    let k = rng.gen_range(1..=8usize);
+    let mut cuts: Vec<usize> = (0..k).map(|_| rng.gen_range(0..=len)).collect();
+    cuts.sort();
+    cuts.dedup();
+    cuts
 }
 unsafe impl Send for Impostor {}
 unsafe impl Sync for Impostor {}
@@ -110,7 +133,12 @@ impl RpcService for Impostor {
 impl Handler<Echo> for Impostor {
     type Reply = Body;
     async fn on_message(&self, _msg: Request<Echo>) -> Result<Body, Status> {
-        Ok(Body::from(self.reply.borrow().clone()))
+        let cuts = self.cuts.borrow().clone();
+        if cuts.is_empty() {
+            Ok(Body::from(self.reply.borrow().clone()))
+        } else {
+            Ok(Body::new(chunked(&self.reply.borrow(), &cuts)))
+        }
     }
 }
 
@@ -271,7 +299,7 @@ impl Check for C12 {
         "E2: server host (real datacake-rpc Server + echo service that logs every handler invocation) and client host (real RpcClient, plus a raw hyper HTTP/2 client for damaged requests and a same-URI impostor service for damaged replies) over simulated TCP; frame corruption enumerated at DataView::using, the decision point both directions share"
     }
     fn rule(&self) -> &'static str {
-        "Cases: seeded message values (fixed-size struct, strings, byte vectors empty..max, nested options and vectors, one value in eight with a flat list of 1500-6000 small structs; a quarter make the handler fail with a seeded error code and message). Per value: (1) through the real client and server: handler-observed value == sent, reply == handler's, error code and message identical, exactly one invocation; (2) at DataView::using for the request frame, the reply frame and a Status frame: EVERY single-bit flip (frames <= 1 KiB; 4096 seeded flips above), EVERY truncation length (<= 2 KiB; 1024 seeded above), extensions by 1..16 bytes, and EVERY length below size_of(archived root) as an all-zero and a random body with a CORRECT checksum; (3) a seeded sample of those damaged frames is sent through the network - requests by a raw HTTP/2 POST to the real URI, replies by an impostor service on the same URI - with latency and an optional link hold. Oracle: damaged/short frames are refused (Err / InvalidPayload), no handler runs on them, nothing panics (debug assertions and overflow checks are on). Non-trivial = every case (each runs thousands of corruptions). Distinct = hash of the value seed and sizes."
+        "Cases: seeded message values (fixed-size struct, strings, byte vectors empty..max, nested options and vectors, one value in eight with a flat list of 1500-6000 small structs; a quarter make the handler fail with a seeded error code and message). Per value: (1) through the real client and server: handler-observed value == sent, reply == handler's, error code and message identical, exactly one invocation; (2) at DataView::using for the request frame, the reply frame and a Status frame: EVERY single-bit flip (frames <= 1 KiB; 4096 seeded flips above), EVERY truncation length (<= 2 KiB; 1024 seeded above), extensions by 1..16 bytes, and EVERY length below size_of(archived root) as an all-zero and a random body with a CORRECT checksum; (3) a seeded sample of those damaged frames is sent through the network - requests by a raw HTTP/2 POST to the real URI, replies by an impostor service on the same URI - with latency and an optional link hold; (4) up to six valid request frames and six valid reply frames are delivered in 2-9 pieces at seeded cut points without a declared body length (a streaming peer) and must be observed unchanged. Oracle: damaged/short frames are refused (Err / InvalidPayload), no handler runs on them, nothing panics (debug assertions and overflow checks are on). Non-trivial = every case (each runs thousands of corruptions). Distinct = hash of the value seed and sizes."
     }
     fn assumptions(&self) -> Vec<String> {
         vec![
@@ -379,6 +407,8 @@ impl Check for C12 {
         // (1) + (3) through the network
         let seen: Rc<RefCell<Vec<Echo>>> = Rc::new(RefCell::new(Vec::new()));
         let impostor_reply: Rc<RefCell<Vec<u8>>> = Rc::new(RefCell::new(Vec::new()));
+        let impostor_cuts: Rc<RefCell<Vec<usize>>> = Rc::new(RefCell::new(Vec::new()));
+        let chunk_seed = sc.value_seed ^ 0xC4C4;
         let use_impostor = Rc::new(std::cell::Cell::new(false));
         let net_out = Rc::new(RefCell::new(Outcome::default()));
         let mut sim = turmoil::Builder::new()
@@ -390,9 +420,9 @@ impl Check for C12 {
         let (swap_tx, swap_rx) = tokio::sync::mpsc::unbounded_channel::<(bool, tokio::sync::oneshot::Sender<()>)>();
         let swap_rx = Rc::new(RefCell::new(Some(swap_rx)));
         {
-            let (seen, impostor_reply) = (seen.clone(), impostor_reply.clone());
+            let (seen, impostor_reply, impostor_cuts) = (seen.clone(), impostor_reply.clone(), impostor_cuts.clone());
             sim.host("server", move || {
-                let (seen, impostor_reply, swap_rx) = (seen.clone(), impostor_reply.clone(), swap_rx.clone());
+                let (seen, impostor_reply, swap_rx, impostor_cuts) = (seen.clone(), impostor_reply.clone(), swap_rx.clone(), impostor_cuts.clone());
                 async move {
                     let server = Server::listen((IpAddr::from(Ipv4Addr::UNSPECIFIED), PORT).into()).await?;
                     server.add_service(EchoSvc { seen: seen.clone() });
@@ -400,7 +430,7 @@ impl Check for C12 {
                     while let Some((imp, done)) = rx.recv().await {
                         // same service name: adding replaces the handlers for the URI
                         if imp {
-                            server.add_service(Impostor { reply: impostor_reply.clone() });
+                            server.add_service(Impostor { reply: impostor_reply.clone(), cuts: impostor_cuts.clone() });
                         } else {
                             server.add_service(EchoSvc { seen: seen.clone() });
                         }
@@ -412,7 +442,7 @@ impl Check for C12 {
             });
         }
         {
-            let (values, seen, impostor_reply, net_out, use_impostor) = (values.clone(), seen.clone(), impostor_reply.clone(), net_out.clone(), use_impostor.clone());
+            let (values, seen, impostor_reply, net_out, use_impostor, impostor_cuts) = (values.clone(), seen.clone(), impostor_reply.clone(), net_out.clone(), use_impostor.clone(), impostor_cuts.clone());
             let hold_ms = sc.hold_ms;
             sim.client("client", async move {
                 let addr: SocketAddr = (turmoil::lookup("server"), PORT).into();
@@ -470,6 +500,44 @@ impl Check for C12 {
                 tokio::task::spawn_local(async move {
                     let _ = conn.await;
                 });
+                // (3c) valid frames delivered in pieces, without a declared body length (a streaming
+                // peer): the handler must still observe exactly the value sent
+                let mut crng = rng_from(chunk_seed);
+                for (i, v) in values.iter().enumerate().take(6) {
+                    let Ok(frame) = datacake_rpc::to_view_bytes(v).map(|b| b.to_vec()) else { continue };
+                    let cuts = seeded_cuts(&mut crng, frame.len());
+                    let before = seen.borrow().len();
+                    let req = hyper::Request::builder().method("POST").uri(format!("http://{}{}", addr, uri_path())).body(chunked(&frame, &cuts)).unwrap();
+                    let resp = sender.send_request(req).await;
+                    let mut o = net_out.borrow_mut();
+                    o.fault("valid_request_streamed_in_pieces");
+                    let calls: Vec<Echo> = seen.borrow()[before..].to_vec();
+                    if calls.len() != 1 {
+                        o.violate("C12/streamed-request-handler-not-invoked-exactly-once", format!("value #{i} sent as {} pieces (cuts {:?} of {} bytes): the handler ran {} times", cuts.len() + 1, cuts, frame.len(), calls.len()));
+                    } else if calls[0] != *v {
+                        o.violate("C12/streamed-request-handler-observed-different-value", format!("value #{i} sent as {} pieces: handler observed a different value", cuts.len() + 1));
+                    }
+                    match resp {
+                        Ok(r) => {
+                            let ok = r.status() == hyper::StatusCode::OK;
+                            if ok != (v.fail_with == 0) {
+                                o.violate("C12/streamed-request-wrong-outcome", format!("value #{i} sent as {} pieces (cuts {:?} of {} bytes): HTTP {} although the handler {}", cuts.len() + 1, cuts, frame.len(), r.status(), if v.fail_with == 0 { "succeeds" } else { "fails" }));
+                            } else if ok {
+                                let body = hyper::body::to_bytes(r.into_body()).await.unwrap_or_default();
+                                match DataView::<Echo>::using(aligned(&body)).ok().and_then(|d| d.deserialize_view().ok()) {
+                                    Some(r) => {
+                                        let r: Echo = r;
+                                        if r != *v {
+                                            o.violate("C12/streamed-request-reply-differs", format!("value #{i}"));
+                                        }
+                                    },
+                                    None => o.violate("C12/streamed-request-reply-unreadable", format!("value #{i}")),
+                                }
+                            }
+                        },
+                        Err(e) => o.violate("C12/streamed-request-broke-the-connection", format!("value #{i}: {e}")),
+                    }
+                }
                 for (m, what) in &net_requests {
                     let before = seen.borrow().len();
                     let req = hyper::Request::builder().method("POST").uri(format!("http://{}{}", addr, uri_path())).body(hyper::Body::from(m.clone())).unwrap();
@@ -504,6 +572,29 @@ impl Check for C12 {
                 let _ = swap_tx.send((true, tx));
                 let _ = rx.await;
                 use_impostor.set(true);
+                // (3d) valid replies streamed in pieces by the peer: the client must observe the value
+                for (i, v) in values.iter().enumerate().take(6) {
+                    let Ok(frame) = datacake_rpc::to_view_bytes(v).map(|b| b.to_vec()) else { continue };
+                    let cuts = seeded_cuts(&mut crng, frame.len());
+                    *impostor_reply.borrow_mut() = frame.clone();
+                    *impostor_cuts.borrow_mut() = if cuts.is_empty() { vec![frame.len() / 2] } else { cuts.clone() };
+                    let res = client.send(&values[0]).await;
+                    let mut o = net_out.borrow_mut();
+                    o.fault("valid_reply_streamed_in_pieces");
+                    match res {
+                        Ok(reply) => match reply.deserialize_view() {
+                            Ok(r) => {
+                                let r: Echo = r;
+                                if r != *v {
+                                    o.violate("C12/streamed-reply-client-observed-different-value", format!("value #{i} replied as {} pieces", cuts.len() + 1));
+                                }
+                            },
+                            Err(_) => o.violate("C12/streamed-reply-not-deserialisable", format!("value #{i}")),
+                        },
+                        Err(st) => o.violate("C12/streamed-reply-refused", format!("value #{i} replied as {} pieces (cuts {:?} of {} bytes): {:?} {}", cuts.len() + 1, cuts, frame.len(), st.code, st.message)),
+                    }
+                }
+                impostor_cuts.borrow_mut().clear();
                 for (m, what) in &net_replies {
                     *impostor_reply.borrow_mut() = m.clone();
                     let res = client.send(&values[0]).await;
